@@ -118,6 +118,33 @@ fn apply(server: &Path, m: &mut Model, op: Op) -> bool {
     true
 }
 
+fn hex_line(seed: u64, len: usize) -> String {
+    vkit::enumerate::lcg_bytes(len.div_ceil(2), seed).iter().map(|b| format!("{b:02x}")).collect::<String>()[..len].to_string()
+}
+/// 60 lines of 60 hex characters; `edits` replaces line `i` by `len` other characters
+fn big_file(edits: &[(usize, usize, u64)]) -> String {
+    let mut lines: Vec<String> = (0..60).map(|i| hex_line(1000 + i as u64, 60)).collect();
+    for &(line, len, seed) in edits {
+        lines[line] = hex_line(seed, len);
+    }
+    lines.join("\n") + "\n"
+}
+fn big_commit_stream(from: Option<&str>, content: &str, ts: u64, msg: &str) -> String {
+    let mut s = format!("commit refs/heads/a\ncommitter {IDENT} {ts} +0000\n{}", data(msg));
+    if let Some(f) = from {
+        s.push_str(&format!("from {f}\n"));
+    }
+    s.push_str(&format!("M 100644 inline big\ndata {}\n{content}\n", content.len()));
+    s
+}
+
+#[derive(Serialize, Deserialize, Hash, Clone, Debug)]
+struct ThinCase {
+    /// length of the two replaced lines: decides the size of the delta entries and with it the distances between pack entries
+    len: u32,
+    proto: u8,
+}
+
 struct Fixture {
     /// template server repositories
     bases: Vec<(PathBuf, Model)>,
@@ -165,6 +192,12 @@ fn fixture() -> Fixture {
         }
         bases.push((dir, Model { a_depth: depth, b_exists: true, n: 0 }));
     }
+    // base 4: one commit with a 60-line file of pseudo-random hex text (sub-check `thin-pack`)
+    let big = scratch::Dir::new("c31big").keep();
+    git::init_bare(&big);
+    util::write(&big.join("HEAD"), b"ref: refs/heads/a\n");
+    fast_import(&big, &big_commit_stream(None, &big_file(&[]), 1_000_000_000, "big0"));
+    bases.push((big, Model { a_depth: 1, b_exists: false, n: 0 }));
     let client = scratch::Dir::new("c31client").keep();
     git::init_bare(&client);
     Fixture { bases, client }
@@ -245,7 +278,7 @@ fn fetch_and_compare(cx: &mut Ctx<'_>, server: &Path, g: &Path, h: &Path, path: 
     if cx.client.shallow {
         args.push("--depth=1".into());
     }
-    if c.base >= 2 {
+    if c.base == 2 || c.base == 3 {
         // plain `git fetch` refuses refs of a shallow server unless told to update .git/shallow (git clone accepts them); gitoxide always accepts
         args.push("--update-shallow".into());
     }
@@ -332,10 +365,11 @@ fn fetch_and_compare(cx: &mut Ctx<'_>, server: &Path, g: &Path, h: &Path, path: 
             git::git(g, &["update-ref", name, new]);
         }
     }
-    if cx.client.shallow && c.proto != 2 && shallow_of(g).is_empty() && !shallow_of(h).is_empty() {
+    if cx.client.shallow && c.proto != 2 && depth_ignored(g, h) {
         // separate, precisely described failure shape (tracked as a known finding): the absolute depth is not honoured over v0/v1
         return Err(format!(
-            "shallow-depth-ignored-v1: depth 1 requested, gitoxide received the complete history and wrote no shallow file, git has shallow commits {:?} {}",
+            "shallow-depth-ignored-v1: depth 1 requested, gitoxide received more history than depth 1 (shallow file {:?}), git has shallow commits {:?} {}",
+            shallow_of(g),
             shallow_of(h),
             here()
         ));
@@ -465,6 +499,12 @@ fn gix_clone(url: &str, dst: &Path, c: &CloneCase) -> Result<(), String> {
     Ok(())
 }
 
+/// depth 1 was requested but not honoured: no shallow file at all, or the parent of a commit that is a shallow boundary for git is present
+fn depth_ignored(g: &Path, h: &Path) -> bool {
+    let hs = shallow_of(h);
+    !hs.is_empty() && shallow_of(g) != hs && (shallow_of(g).is_empty() || hs.iter().any(|id| git::try_git(g, &["cat-file", "-e", &format!("{id}^1")]).ok))
+}
+
 static CLONES: AtomicU64 = AtomicU64::new(0);
 
 fn clone_and_compare(fx: &Fixture, c: &CloneCase) -> Verdict {
@@ -494,10 +534,10 @@ fn clone_and_compare(fx: &Fixture, c: &CloneCase) -> Verdict {
     if !fsck.ok || fsck_text.contains("missing") || fsck_text.contains("broken") || fsck_text.contains("error") {
         return vkit::bad("fsck", format!("git fsck --connectivity-only exits with {:?} after {here}: {}", fsck.code, fsck_text.trim()));
     }
-    if c.shallow && c.proto != 2 && shallow_of(&g).is_empty() && !shallow_of(&h).is_empty() {
+    if c.shallow && c.proto != 2 && depth_ignored(&g, &h) {
         return vkit::bad(
             "shallow-depth-ignored-v1",
-            format!("depth 1 requested, gitoxide received the complete history and wrote no shallow file, git has shallow commits {:?}, {here}", shallow_of(&h)),
+            format!("depth 1 requested, gitoxide received more history than depth 1 (shallow file {:?}), git has shallow commits {:?}, {here}", shallow_of(&g), shallow_of(&h)),
         );
     }
     let (got, want) = (refs_of(&g), refs_of(&h));
@@ -535,9 +575,9 @@ pub fn run(run: &'static Run) {
         "server histories: from base 0 (a = 1 commit), base 1 (a = 2 commits, b = side commit, annotated tag on the root, lightweight tag on the tip) every sequence of \
          {Commit on a, Branch (create/advance b with an old-dated commit), DelBranch b, Rewind a (forced replacement of the tip / new root), TagLw (move lightweight tag), TagAnn (re-create annotated tag)} \
          (quick: base 1 at depth 1 for all 4 clients x protocol 1 and 2, shallow servers (bases 2/3 = bare --depth=1/--depth=2 clones of a 4-commit history) initial fetch for the 3 depth-less clients x protocol 1 and 2; \
-         thorough: base 1 at depth 3 for (follow-tags, v2) and (unforced+all-tags, v2), at depth 2 for the other 6 client/protocol combinations, base 0 at depth 2 for all 4 clients with alternating protocol, shallow servers at depth 1 for 3 clients x 2 protocols); after the initial state and after EVERY operation the client fetches. Clients: `+refs/heads/*:refs/remotes/o/*` with tag following; `refs/heads/*:refs/remotes/o/*` (no force) with --tags; \
+         thorough: base 1 at depth 3 for the follow-tags and the unforced+all-tags client with protocol 1 and 2, at depth 2 for the single-branch and the depth-1 client with protocol 1 and 2, base 0 at depth 2 for all 4 clients with alternating protocol, shallow servers at depth 1 for 3 clients x 2 protocols); after the initial state and after EVERY operation the client fetches. Clients: `+refs/heads/*:refs/remotes/o/*` with tag following; `refs/heads/*:refs/remotes/o/*` (no force) with --tags; \
          single branch `+refs/heads/a:..` with --no-tags; all heads --no-tags with depth 1; protocol.version 1 and 2. \
-         sub-check `clone` (both tiers): PrepareFetch::new(..).fetch_only() for bases 0-3 x protocol 1/2 x complete/depth-1 x bare/with-worktree kind, compared with `git clone --no-checkout [--depth=1 --no-single-branch]` (refs, HEAD, shallow file, fsck). a case = (base, client, protocol, first operation) and covers the whole subtree of continuations; non-trivial = every fetch in the subtree was compared with git fetch and at least one pack was received",
+         sub-check `thin-pack` (quick: replaced-line length 90..160 step 5, thorough 2..300 step 2, x protocol 1/2): client has version 0 of a 60-line file, server adds a commit replacing one line by `len` characters and a second one with a 2-character edit, so the fetched thin pack has a ref-delta with external base followed by an ofs-delta; refs + fsck --full. sub-check `clone` (both tiers): PrepareFetch::new(..).fetch_only() for bases 0-3 x protocol 1/2 x complete/depth-1 x bare/with-worktree kind, compared with `git clone --no-checkout [--depth=1 --no-single-branch]` (refs, HEAD, shallow file, fsck). a case = (base, client, protocol, first operation) and covers the whole subtree of continuations; non-trivial = every fetch in the subtree was compared with git fetch and at least one pack was received",
     );
     run.assume("git 2.39.5 `git fetch` (same config file, same protocol.version) on an identical copy of the client is the reference for refs and the shallow file; `git fsck --connectivity-only` decides completeness");
     run.assume("documented deviation tolerated: with tag following, gitoxide does not request annotated tags of commits it already has (Mode::ImplicitTagNotSentByRemote) — only when that mode is reported and the tag object is indeed absent");
@@ -577,10 +617,10 @@ pub fn run(run: &'static Run) {
                     }
                 }
             } else {
-                for (client, proto) in [(0u8, 2u8), (1, 2)] {
+                for (client, proto) in [(0u8, 2u8), (1, 2), (0, 1), (1, 1)] {
                     subtree(1, client, proto, 3);
                 }
-                for (client, proto) in [(0u8, 1u8), (1, 1), (3, 2), (2, 1), (3, 1), (2, 2)] {
+                for (client, proto) in [(3u8, 2u8), (2, 1), (3, 1), (2, 2)] {
                     subtree(1, client, proto, 2);
                 }
                 for client in 0..CLIENTS.len() as u8 {
@@ -616,6 +656,52 @@ pub fn run(run: &'static Run) {
             }
             let kinds: Vec<&str> = cx.kinds.iter().copied().collect();
             ok(format!("{}/v{}/{}", client.name, c.proto, kinds.join("+")))
+        },
+    );
+    // thin packs: the client has version 0 of a big file, the server adds a commit that replaces one line by `len` characters and a second commit with a tiny edit; the pack
+    // then holds version 2 as ref-delta against the client's version 0 (base not in the pack) and version 1 as ofs-delta against version 2.
+    // `len` sweeps the entry sizes so that delta-offset encodings cross their 1-byte/2-byte boundary when the thin pack is completed.
+    run.sub_with(
+        "thin-pack",
+        vkit::Opts::default().chunk(16).watchdog(600.0),
+        |emit| {
+            for len in (run.pick(90u32, 2)..=run.pick(160u32, 300)).step_by(run.pick(5, 2)) {
+                for proto in [2u8, 1] {
+                    emit(ThinCase { len, proto });
+                }
+            }
+        },
+        |t: &ThinCase| -> Verdict {
+            let (base_dir, _) = &fx.bases[4];
+            let client = &CLIENTS[2];
+            let c = Case { base: 4, client: 2, proto: t.proto, first: None, depth: 0 };
+            let (s, g, h) = (copy(base_dir, "c31s"), copy(&fx.client, "c31g"), copy(&fx.client, "c31h"));
+            point_client_at(g.path(), s.path(), client);
+            point_client_at(h.path(), s.path(), client);
+            let mut cx = Ctx { run, case: &c, client, kinds: BTreeSet::new() };
+            fetch_and_compare(&mut cx, s.path(), g.path(), h.path(), &[]).map_err(|m| format!("{m} [thin-pack len={}]", t.len))?;
+            let len = t.len as usize;
+            let v1 = big_file(&[(10, len, 7000 + t.len as u64)]);
+            // the second commit changes little, so that version 1 is stored as a delta of version 2 and the size of version 2's entry
+            // (= the delta offset of version 1) is governed by `len`
+            let v2 = big_file(&[(10, len, 7000 + t.len as u64), (20, 2, 9000)]);
+            fast_import(s.path(), &big_commit_stream(Some("refs/heads/a^0"), &v1, 1_000_000_100, "big1"));
+            fast_import(s.path(), &big_commit_stream(Some("refs/heads/a^0"), &v2, 1_000_000_200, "big2"));
+            run.mc_transitions(1);
+            fetch_and_compare(&mut cx, s.path(), g.path(), h.path(), &[Op::Commit, Op::Commit]).map_err(|m| format!("{m} [thin-pack len={}]", t.len))?;
+            if std::env::var_os("C31_DUMP").is_some() {
+                for e in std::fs::read_dir(g.path().join("objects/pack")).into_iter().flatten().flatten() {
+                    if e.path().extension().map_or(false, |x| x == "idx") {
+                        eprintln!("{}", git::try_git(g.path(), &["verify-pack", "-v", &e.path().display().to_string()]).text());
+                    }
+                }
+            }
+            // every object must be readable, not only connected
+            let fsck = git::try_git(g.path(), &["fsck", "--full", "--strict"]);
+            if !fsck.ok {
+                return vkit::bad("fsck", format!("git fsck --full fails after the thin-pack fetch with len={} protocol.version={}: {} {}", t.len, t.proto, fsck.text(), fsck.err_text()));
+            }
+            ok(format!("thin-pack/v{}", t.proto))
         },
     );
     run.sub_with(
